@@ -275,6 +275,8 @@ def _exp_int(gam, bet, a0, a1):
 
 def _differs(x, y, rtol=1e-8):
     x, y = complex(x), complex(y)
+    if x != x or abs(x) == float("inf"):
+        return True  # a non-finite kernel differs from every solution
     return abs(x - y) > rtol * max(abs(x), abs(y), 1e-30)
 
 
